@@ -116,6 +116,29 @@ def generate(g, tier):
         e = '(' * d + '1' + ')' * d
         cases.append(dict(op='compile', src=dict(text=f'$STRING {e}'), meta=dict(family='parens', exp='ok' if d <= 100 else 'error', d=d)))
         cases.append(dict(op='compile', src=dict(text=f'IF {"(" * d}1==1{")" * d}\n    STRING y'), meta=dict(family='parens', exp='ok' if d <= 100 else 'error', d=d)))
+    # the parenthesis limit is the same at EVERY stack limit and at every nesting depth of the program, also when every level of
+    # the expression carries an operator (each level then costs the host more than a bare pair of parentheses): small stack limits,
+    # at top level, under the deepest legal IF nest, at the bottom of the deepest legal call chain
+    def opnest(d, shape):
+        if shape == 0: return '(1+' * d + '1' + ')' * d
+        if shape == 1: return '(' * d + '1' + ')*1' * d
+        if shape == 2: return '(2*(1+' * (d // 2) + '1' + '))' * (d // 2) + ('' if d % 2 == 0 else '')
+        return '!(' * min(d, 100) + 'TRUE' + ')' * min(d, 100)
+    for L in ((5, 6, 9, 14, 20, 50) if tier == 'quick' else tuple(range(5, 60))):
+        for d in (70, 99, 100, 101):
+            for shape in (0, 1, 2, 3):
+                e = opnest(d, shape)
+                depth = e.count('(') if shape != 2 else 2 * (d // 2)
+                exp = 'ok' if depth <= 100 else 'error'
+                where = r.choice(['top', 'ifs', 'calls'])
+                if where == 'top': text = f'VAR a {e}\nSTRING done'
+                elif where == 'ifs':
+                    k = L - 2
+                    text = '\n'.join('    ' * j + 'IF TRUE' for j in range(k)) + '\n' + '    ' * k + f'VAR a {e}\n' + '    ' * k + 'STRING done'
+                else:
+                    k = L - 2
+                    text = '\n'.join([f'FUNC g{j}\n    RUN g{j + 1}' for j in range(k - 1)] + [f'FUNC g{k - 1}\n    VAR a {e}\n    STRING done', 'RUN g0'])
+                cases.append(dict(op='compile', timeout=60, opts=dict(stack_limit=L), src=dict(text=text), meta=dict(family='parens', exp=exp, d=depth, L=L, where=where)))
     # iteration limits (each costs seconds): thorough tier, plus the D19 probe
     if tier == 'thorough':
         for n, exp in ((20000, 'ok'), (20001, 'error')):
